@@ -493,8 +493,8 @@ def byte_prefixes(ctx, tool, sc, idx, step=1):
 
 
 def compaction_prefixes(ctx, tool, sc, idx, step=1):
-    """the compaction window of Close byte by byte: the directory before the Close plus <run>_c.dat holding the first j bytes of the
-    compacted line, j = 0 .. its length (j = length: the twin is complete and the original not yet unlinked).
+    """the compaction window of Close byte by byte: the directory before the Close plus <run>_c.dat.tmp holding the first j bytes of
+    the compacted line, j = 0 .. its length, and the state after the rename to <run>_c.dat with the original not yet unlinked.
     The victim's last op must be the close."""
     base = os.path.join(ctx.scratch, "c07c-%d" % idx)
     os.makedirs(base, exist_ok=True)
@@ -524,11 +524,18 @@ def compaction_prefixes(ctx, tool, sc, idx, step=1):
         if j < 0:
             continue
         restore(pre, work)
-        with open(os.path.join(work, twin), "wb") as f:
+        with open(os.path.join(work, twin + ".tmp"), "wb") as f:
             f.write(data[:j])
         rc, dout, err = sh([tool, "dump", work, scf])
         obs.append({"sc": sc, "kill": ["compaction-bytes", j], "n_acked": n, "dump": json.loads(dout), "loc": work,
-                    "sysc": "twin holds %d of %d bytes, original not unlinked" % (j, len(data))})
+                    "sysc": "temporary copy holds %d of %d bytes, original not unlinked" % (j, len(data))})
+    # published (renamed), original not yet unlinked
+    restore(pre, work)
+    with open(os.path.join(work, twin), "wb") as f:
+        f.write(data)
+    rc, dout, err = sh([tool, "dump", work, scf])
+    obs.append({"sc": sc, "kill": ["compaction-published", len(data)], "n_acked": n, "dump": json.loads(dout), "loc": work,
+                "sysc": "compacted copy published, original not unlinked"})
     return obs
 
 
